@@ -63,6 +63,12 @@ func genNetConn(r *Rng, tier string, stat func(string)) []string {
 	for typ := 1; typ <= 2; typ++ {
 		out = append(out, fmt.Sprintf("kind=wrongtype typ=%d", typ))
 		stat("wrongtype")
+		// the connection ends WITHOUT a Close frame (transport dropped / failed, a protocol violation by the peer): the reader must
+		// see an error that is not io.EOF — only a normal / going-away Close frame is a clean end of stream
+		for _, how := range []string{"eof", "fail", "badframe"} {
+			out = append(out, fmt.Sprintf("kind=drop typ=%d how=%s", typ, how))
+			stat("drop")
+		}
 	}
 	for _, side := range []string{"read", "write"} {
 		for _, when := range []string{"idle-past", "idle-future", "active", "active-setpast", "active-setfuture", "idle-midmessage-past", "idle-midmessage-future"} {
@@ -154,6 +160,30 @@ func runNetConn(kv map[string]string) string {
 		_, e2 := b.Read(make([]byte, 8))
 		_ = e2
 		return fmt.Sprintf("werr=%v end=%s n=%d fnv=%s wn=%d wfnv=%s zeroreads=%d", werr == nil, ncErr(rerr), len(got), Fnv(got), len(data), Fnv(data), zero)
+	case "drop":
+		cfg := EndpointCfg{Role: "client"}
+		c, raw, err := newLibConn(cfg)
+		if err != nil {
+			return "dialerr=" + errClass(err)
+		}
+		peer := startAutoPeer(raw, cfg.Role, true)
+		nc := websocket.NetConn(ctx, c, websocket.MessageType(typ))
+		peer.send(rawFrame{Fin: true, Opcode: byte(typ), Payload: []byte("abc")})
+		switch kv["how"] {
+		case "eof":
+			raw.End(io.EOF)
+		case "fail":
+			raw.End(errPipeFail)
+		default:
+			peer.send(rawFrame{Fin: true, Opcode: 3, Payload: []byte("x")}) // reserved opcode
+		}
+		buf := make([]byte, 16)
+		k, e1 := nc.Read(buf)
+		_, e2 := nc.Read(buf)
+		_, e3 := nc.Read(buf)
+		c.CloseNow()
+		<-peer.done
+		return fmt.Sprintf("first=%d:%s second=%s third=%s", k, ncErr(e1), ncErr(e2), ncErr(e3))
 	case "close", "wrongtype":
 		cfg := EndpointCfg{Role: "client"}
 		c, raw, err := newLibConn(cfg)
@@ -298,7 +328,7 @@ func runNetConn(kv map[string]string) string {
 			}
 			time.Sleep(30 * time.Millisecond)
 			e2 := c.Write(ctx, websocket.MessageBinary, []byte("x"))
-			return fmt.Sprintf("call=%v connclosed=%v", returned && e1 != nil, e2 != nil)
+			return fmt.Sprintf("call=%v connclosed=%v eof=%v", returned && e1 != nil, e2 != nil, e1 == io.EOF)
 		case "active":
 			// the deadline fires during an active call: that call fails and the connection is closed
 			set(time.Now().Add(60 * time.Millisecond))
@@ -319,7 +349,7 @@ func runNetConn(kv map[string]string) string {
 			}
 			time.Sleep(30 * time.Millisecond)
 			e2 := c.Write(ctx, websocket.MessageBinary, []byte("x"))
-			return fmt.Sprintf("call=%v connclosed=%v", e1 != nil, e2 != nil)
+			return fmt.Sprintf("call=%v connclosed=%v eof=%v", e1 != nil, e2 != nil, e1 == io.EOF)
 		}
 	}
 	return "unknown-kind"
